@@ -10,6 +10,7 @@ import KalignModel.Driver.Pipeline
 import KalignModel.Driver.PipelineFile
 import KalignModel.Driver.Cli
 import KalignModel.Driver.F32
+import KalignModel.Driver.TreeSoft
 /-!
 Line-protocol driver: one operation per input line, one result line per operation.
 Only executable model definitions are imported here (no `Props`, no Mathlib), so a failing proof
@@ -17,7 +18,7 @@ never prevents the model from running.  Each slice of the model contributes an `
 -/
 namespace Kalign.Driver
 
-def tables : OpTable := weaveOps ++ paramOps ++ dpOps ++ ioOps ++ miscOps ++ bpmOps ++ kmeansOps ++ pipelineOps ++ pipeFileOps ++ cliOps ++ f32Ops
+def tables : OpTable := weaveOps ++ paramOps ++ dpOps ++ ioOps ++ miscOps ++ bpmOps ++ kmeansOps ++ pipelineOps ++ pipeFileOps ++ cliOps ++ f32Ops ++ treeSoftOps
 
 def step (line : String) : String :=
   match (line.trimAscii.toString.splitOn " ").filter (· ≠ "") with
